@@ -79,6 +79,17 @@ def aggregate_cases():
     add(SL + '\tvar n: usize = |x|;\n', 'accept', 'a local slice is read')
     add(SL + '\tx = format!("Bye ", alice);\n', 'reject:530', 'a local slice (a view, not a var of its own) is reassigned')
     add(SL + "\tx[0] = 'J';\n", 'reject:530', 'an element is written through a local slice (a view)')
+    # elements and members of constants and of by-value word parameters live in the storage of an immutable base
+    AG = ('struct P\n{\n\tx: i32,\n}\n\nword64 W\n{\n\ta: u32,\n\tb: u32,\n}\n\nconst TABLE: [3]i32 = [1, 2, 3];\nconst ORIGIN: P = P { x: 1 };\n\n'
+          'fn k(p: &i32)\n{\n\tp = 2;\n}\n\n')
+    add2 = lambda body, exp, what, params='': c.append(('%sfn f(%s)\n{\n%s}\n' % (AG, params, body), exp, what))
+    add2('\tTABLE[1] = 5;\n', 'reject:530', 'assignment to an element of a constant array')
+    add2('\tORIGIN.x = 5;\n', 'reject:530', 'assignment to a member of a constant structure')
+    add2('\tk(&ORIGIN.x);\n', 'reject:530', 'address of a member of a constant structure handed to a writing callee')
+    add2('\tw.a = 5;\n', 'reject:530', 'assignment to a member of a by-value word parameter', 'w: W')
+    add2('\tvar q: u32 = w.a;\n', 'accept', 'a member of a by-value word parameter is read', 'w: W')
+    add2('\tvar p: P = P { x: 1 };\n\tp.x = 5;\n', 'accept', 'assignment to a member of a var structure')
+    c.append(('const X: i32 = 0;\nconst ADDR: &i32 = &X;\n\nfn f()\n{\n\tADDR = 5;\n}\n', 'reject', 'a write through a constant that holds the address of another constant'))
     return c
 
 
@@ -90,6 +101,8 @@ def verdict_ok(exp, r):
     codes = [c for c in r['result'].get('errors', '[]').strip('[]').split(',') if c]
     if exp == 'accept':
         return codes == []
+    if ':' not in exp:
+        return codes != []
     return exp.split(':')[1] in codes
 
 
